@@ -298,10 +298,13 @@ class Run:
         self.notes = {}
         self.exhaustive = True
         self.min_nontrivial = 2
+        self.failed_guards = []
 
     def require(self, cond, msg):
+        """Vacuity / consistency guard: a failure makes the run exit 3 (after the
+        evidence has been written and any violation reported)."""
         if not cond:
-            raise HarnessError("%s: vacuity/consistency guard: %s" % (self.prop, msg))
+            self.failed_guards.append(msg)
 
     def finish(self):
         acc = self.acc
@@ -357,6 +360,7 @@ class Run:
             "deciding_clauses": dict(sorted(acc.clauses.items())),
             "counters": dict(sorted(acc.extra.items())),
             "caps_hit": acc.caps,
+            "failed_guards": list(self.failed_guards),
             "violations_total": int(acc.violations_total),
             "violations_attributed_to_known_findings": sorted(seen_f),
         }
@@ -376,6 +380,11 @@ class Run:
               "violations=%d known=%d wall=%.1fs" % (
                   self.prop, self.tier, acc.evaluations, acc.nontrivial, acc.states,
                   acc.transitions, len(fresh), len(known), wall))
+        if self.failed_guards:
+            for g in self.failed_guards:
+                print("HARNESS: %s: vacuity/consistency guard: %s" % (self.prop, g))
+            if status == EXIT_OK:
+                return EXIT_HARNESS
         if status == EXIT_OK:
             if acc.caps:
                 print("HARNESS: cap hit: %s" % acc.caps)
